@@ -206,6 +206,42 @@ func reorgScenarioOpts(c *pbt.C, id string, check func(c *pbt.C, key string, b, 
 				}
 			}
 		}
+		// first a peer hands B the other branch with an element that does not verify, preceded by momentums B already has:
+		// where what verified of it is not longer than B's own branch, B is afterwards exactly what it was
+		if forkAt > 2 && c.Bool("failedDeliveryFirst") {
+			k := uint64(c.Int("failed.known", 1, int(min64(6, forkAt-2))))
+			yb := a2.Range(forkAt-k+1, topY)
+			// the momentums B already has (the known prefix and whatever the two branches have in common) are not verified again
+			first := 0
+			for first < len(yb) && sameAt(b, a2, yb[first].Momentum.Height) {
+				first++
+			}
+			k = uint64(first)
+			pos := first
+			if first < len(yb) {
+				pos = first + c.Int("failed.pos", 0, len(yb)-first-1)
+			}
+			if pos >= len(yb) {
+				// nothing new in the batch
+			} else if fm := sim.InjectFault(yb[pos], "bad-signature", h.W.Keys, nil); fm != nil {
+				yb[pos] = fm
+				before, hb := b.Dump(), b.Height()
+				_, ferr := b.Bridge.InsertChain(yb)
+				c.Class("failed-side-chain-delivered-first")
+				if ferr == nil {
+					c.Failf(id+"/invalid-side-chain-accepted", "a side chain whose element %d carries a bad signature was accepted", pos)
+				}
+				verifiedTip := yb[pos].Momentum.Height - 1
+				if verifiedTip <= hb {
+					if b.Height() != hb || b.Dump() != before {
+						c.Failf(id+"/failed-side-chain-left-a-trace", "B (height %d) was handed %d known momentums + the other branch with a bad signature at its element %d: the verified part (up to height %d) is not longer than B's branch, yet B is at height %d / its store changed: %s",
+							hb, k, pos-int(k), verifiedTip, b.Height(), firstDiff(before, b.Dump()))
+					}
+				} else if b.Height() != hb {
+					return // B legitimately moved to the longer verified part: C16's subject
+				}
+			}
+		}
 		// the switch
 		idx, err := b.Bridge.InsertChain(a2.Range(forkAt+1, topY))
 		c.Note("B: InsertChain(Y %d..%d) -> %d %v", forkAt+1, topY, idx, err)
